@@ -141,7 +141,8 @@ Fixpoint run6n (c : cfg) (s : state) (ops : list pop) : list string :=
   end.
 
 Definition dispatch (kind : string) (args : list string) : string :=
-  if String.eqb kind "t6n" then
+  if String.eqb kind "rt" then out3 (rt_model args) "-" "-"     (* real-time histories: Model/TablesShow.v *)
+  else if String.eqb kind "t6n" then
     match args with
     | ctok :: t0 :: optoks =>
         match cfg_of_tok ctok, Z_of_dec t0, ops_of_toks optoks with
